@@ -13,6 +13,10 @@ pub struct Parsed {
     pub is_escaped: bool,
 }
 
+/// false: the private items have another shape in this tree (see build.rs); the in-process family is skipped
+pub const PRIVATE_API: bool = cfg!(b3sum_private_api);
+
+#[cfg(b3sum_private_api)]
 pub fn verif_parse(line: &str) -> Result<Parsed, String> {
     match parse_check_line(line) {
         Ok(p) => Ok(Parsed { path: p.file_path, hash: *p.expected_hash.as_bytes(), file_string: p.file_string, is_escaped: p.is_escaped }),
@@ -20,7 +24,18 @@ pub fn verif_parse(line: &str) -> Result<Parsed, String> {
     }
 }
 
+#[cfg(b3sum_private_api)]
 pub fn verif_filepath_to_string(p: &std::path::Path) -> (String, bool) {
     let f = filepath_to_string(p);
     (f.filepath_string, f.is_escaped)
+}
+
+#[cfg(not(b3sum_private_api))]
+pub fn verif_parse(_line: &str) -> Result<Parsed, String> {
+    Err("unavailable".into())
+}
+
+#[cfg(not(b3sum_private_api))]
+pub fn verif_filepath_to_string(_p: &std::path::Path) -> (String, bool) {
+    (String::new(), false)
 }
